@@ -181,8 +181,9 @@ class SubclassJSONSerializer:
         :param data: The JSON dict
         :param kwargs: Additional keyword arguments to pass to the constructor of the subclass.
         :return: The deserialized object
+        :raises ClassNotDeserializableError: If the subclass does not implement this method.
         """
-        raise NotImplementedError()
+        raise ClassNotDeserializableError(cls)
 
     @classmethod
     def from_json(cls, data: Dict[str, Any], **kwargs) -> Self:
@@ -204,20 +205,31 @@ class SubclassJSONSerializer:
         if not fully_qualified_class_name:
             raise MissingTypeError()
 
+        if not isinstance(fully_qualified_class_name, str):
+            raise InvalidTypeFormatError(fully_qualified_class_name)
+
         try:
             module_name, class_name = fully_qualified_class_name.rsplit(".", 1)
         except ValueError as exc:
             raise InvalidTypeFormatError(fully_qualified_class_name) from exc
 
+        # every part of the dotted name has to be a python identifier (no empty, leading, trailing or double dots)
+        if not all(part.isidentifier() for part in fully_qualified_class_name.split(".")):
+            raise InvalidTypeFormatError(fully_qualified_class_name)
+
         try:
             module = importlib.import_module(module_name)
-        except ModuleNotFoundError as exc:
+        except ImportError as exc:
             raise UnknownModuleError(module_name) from exc
 
         try:
             target_cls = getattr(module, class_name)
         except AttributeError as exc:
             raise ClassNotFoundError(class_name, module_name) from exc
+
+        if not isinstance(target_cls, type):
+            # the name exists but does not refer to a class (e.g., a function, a module or a type variable)
+            raise ClassNotFoundError(class_name, module_name)
 
         if issubclass(target_cls, SubclassJSONSerializer):
             return target_cls._from_json(data, **kwargs)
